@@ -128,6 +128,32 @@ func HarnessC06RulesNarrow(depth int) {
 	HarnessC06Rules(depth, true)
 }
 
+// HarnessC06Pairs: both operands structured (depth <= 1, innermost types any /
+// number / string); one of them is loosened; templates that use both operands.
+var verifC06PairExprs = []string{
+	"x[y]", "x.a[y]", "y[x]", "y.a[x]", "x == y", "x < y", "x && y", "contains(x, y)", "contains(y, x)", "startsWith(x, y)",
+	"format(x, y)", "join(x, y)", "join(y, x)", "hashFiles(x, y)", "x.a == y", "x[0] == y", "contains(x.*.a, y)", "x[y.a]", "x.*[y]", "y.*[x]",
+}
+
+func HarnessC06Pairs() {
+	verifC06NarrowLeaves = true
+	T := verifGenType("tx", 1)
+	U := verifGenType("ty", 1)
+	k := verifChoose("loosen", 5)
+	n := k
+	T2 := verifLoosen(T, &n)
+	if T2 == nil {
+		return
+	}
+	src := verifC06PairExprs[verifChoose("expr", len(verifC06PairExprs))]
+	before, after := verifSemaErrs(src, T, U), verifSemaErrs(src, T2, U)
+	verifReach("compared")
+	if before == 0 {
+		verifReach("accepted-before")
+		verifCheckf(after == 0, "loosening-a-type-introduces-a-diagnostic", src+" : "+T.String()+" -> "+T2.String()+" ; other "+U.String())
+	}
+}
+
 func HarnessC06Rules(depth int, deep bool) {
 	T := verifGenType("t", depth)
 	var U ExprType = StringType{}
